@@ -123,7 +123,96 @@ def node_sx(n):
         return f"(NHandle {ast_sx(f['expr_or_stmt'])} {asts(f['cases'])})"
     if k == "Import":
         return f"(NImport {opt(f['from'], ast_sx)} {asts(f['import'])} {asts(f['alias'])})"
+    if k == "Dict":
+        return "(NDict [" + " ".join(f"[{ast_sx(a)} {ast_sx(b)}]" for a, b in f["elements"]) + "])"
+    if k in ("ListBuilder", "SetBuilder"):
+        return f"(N{k} {ast_sx(f['item'])} {asts(f['conditions'])})"
+    if k == "DictBuilder":
+        return f"(NDictBuilder {ast_sx(f['from'])} {ast_sx(f['to'])} {asts(f['conditions'])})"
+    if k == "With":
+        al = f["alias"]
+        al_sx = "~" if (isinstance(al, Node) and al.name == "None") else ast_sx(al[0][0])
+        return f"(NWith {ast_sx(f['resource'])} {al_sx} {ast_sx(f['expr'])})"
+    if k == "Class":
+        nm = f["ty"]
+        return (f"(NClass {S(nm['name'])} [{' '.join(nm_sx(g) for g in nm['generics'])}] {asts(f['args'])} "
+                f"{asts(f['parents'])} {opt(f['body'], ast_sx)})")
+    if k == "Parent":
+        nm = f["ty"]
+        return f"(NParent {S(nm['name'])} [{' '.join(nm_sx(g) for g in nm['generics'])}] {asts(f['args'])})"
+    if k == "TypeDef":
+        nm = f["ty"]
+        return (f"(NTypeDef {S(nm['name'])} [{' '.join(nm_sx(g) for g in nm['generics'])}] {opt(f['isa'], nm_sx)} "
+                f"{opt(f['body'], ast_sx)} {B(_CTX.has_abstract_parent(nm['name']))})")
+    if k == "TypeAlias":
+        nm = f["ty"]
+        return f"(NTypeAlias {S(nm['name'])} [{' '.join(nm_sx(g) for g in nm['generics'])}] {nm_sx(f['isa'])})"
     raise Outside(k)
+
+
+# ---- the part of the context that extract_class consults (has_abstract_parent) -----------------
+
+class _Ctx:
+    """Class table of one file: user classes are concrete, type definitions and the built-in stub
+    classes are not (src/check/context/clss/{generic,python}.rs)."""
+
+    def __init__(self):
+        self.user = {}
+        self._builtins = None
+
+    def builtins(self):
+        if self._builtins is None:
+            import ast as pyast, glob, os
+            from .common import REPO
+            names = set()
+            for f in glob.glob(os.path.join(REPO, "src/check/resource/**/*.py"), recursive=True):
+                try:
+                    for n in pyast.walk(pyast.parse(open(f).read())):
+                        if isinstance(n, pyast.ClassDef):
+                            names.add(n.name)
+                except SyntaxError:
+                    pass
+            conv = {"int": "Int", "float": "Float", "str": "Str", "bool": "Bool", "complex": "Complex",
+                    "list": "List", "set": "Set", "dict": "Dict", "tuple": "Tuple", "range": "Range",
+                    "slice": "Slice", "enum": "Enum", "collection": "Collection"}
+            self._builtins = {conv.get(n, n) for n in names} | names
+        return self._builtins
+
+    def load(self, root):
+        self.user = {}
+
+        def walk(a):
+            n = a["node"]
+            if n.name == "Class":
+                ps = [p["node"]["ty"]["name"] for p in n["parents"] if p["node"].name == "Parent"]
+                self.user[n["ty"]["name"]] = (True, ps)
+            elif n.name == "TypeDef":
+                isa = n["isa"]
+                ps = [t["variant"]["name"] for t in isa[0]["names"]] if isa.name == "Some" else []
+                self.user[n["ty"]["name"]] = (False, ps)
+            if n.name == "Block":
+                for s_ in n["statements"]:
+                    walk(s_)
+        walk(root)
+
+    def known(self, name):
+        return name in self.user or name in self.builtins()
+
+    def is_abstract(self, name, seen=()):
+        if name in seen or not self.known(name):
+            return False
+        if name in self.user:
+            concrete, ps = self.user[name]
+            return (not concrete) or any(self.has_abstract_parent(p, seen + (name,)) for p in ps)
+        return True   # built-in stub classes are recorded as not concrete
+
+    def has_abstract_parent(self, name, seen=()):
+        if name in seen or name not in self.user:
+            return False if name not in self.builtins() else False
+        return any(self.is_abstract(p, seen + (name,)) for p in self.user[name][1])
+
+
+_CTX = _Ctx()
 
 
 # ---- Core ----------------------------------------------------------------------------------------
@@ -162,7 +251,9 @@ def core_sx(c):
 
 
 def from_debug_ast(text):
-    return ast_sx(parse(text))
+    root = parse(text)
+    _CTX.load(root)
+    return ast_sx(root)
 
 
 def from_debug_core(text):
